@@ -62,6 +62,38 @@ def boundaries(text):
   return sorted(set(out))
 
 
+def split_top(text, sep):
+  """Splits at separators that are outside brackets and string literals."""
+  parts, depth, cur, q = [], 0, '', None
+  i = 0
+  while i < len(text):
+    c = text[i]
+    if q:
+      cur += c
+      if c == '\\' and i + 1 < len(text):
+        cur += text[i + 1]
+        i += 1
+      elif c == q:
+        q = None
+    elif c in '"\'`':
+      q = c
+      cur += c
+    elif c in '([{':
+      depth += 1
+      cur += c
+    elif c in ')]}':
+      depth -= 1
+      cur += c
+    elif c == sep and depth == 0 and not (sep == '|' and text[i:i + 2] == '||'):
+      parts.append(cur)
+      cur = ''
+    else:
+      cur += c
+    i += 1
+  parts.append(cur)
+  return parts
+
+
 def strip_tree(x):
   if isinstance(x, dict):
     return {k: strip_tree(v) for k, v in x.items() if k not in ('expression_heritage', 'full_text')}
@@ -130,6 +162,18 @@ def _one(i):
   if m and '|' not in m.group(1) and last.count(':-') == 1:
     for wrap in ('(%s)', '( (%s) )', '(\n (%s)\n )'):
       variants.append(text[:len(text) - len(last)] + last[:last.index(':- ') + 3] + wrap % m.group(1) + ';')
+  # redundant parentheses around groups of adjacent conjuncts of a body without a top-level disjunction
+  if m and last.count(':-') == 1:
+    parts = split_top(m.group(1), ',')
+    if len(parts) >= 2 and len(split_top(m.group(1), '|')) == 1:
+      head = text[:len(text) - len(last)] + last[:last.index(':- ') + 3]
+      groups = {(0, 2), (len(parts) - 2, len(parts)), (0, len(parts) - 1), (1, len(parts))}
+      for lo_, hi_ in sorted(g for g in groups if 0 <= g[0] < g[1] <= len(parts) and g[1] - g[0] >= 1):
+        for wrap in ('(%s)', '( (%s) )'):
+          grouped = parts[:lo_] + [wrap % ','.join(parts[lo_:hi_])] + parts[hi_:]
+          variants.append(head + ','.join(grouped) + ';')
+      # every conjunct on its own in parentheses
+      variants.append(head + ','.join('(%s)' % p_.strip() for p_ in parts) + ';')
   for v in variants:
     res['evaluations'] += 1
     try:
